@@ -413,8 +413,11 @@ pub fn verif_send_best_move_to_gui(board: &BoardState) {
 
 pub fn read_from_gui() -> String {
     let stdin = io::stdin();
-    let mut buffer = String::new();
-    let bytes_read = stdin.lock().read_line(&mut buffer).unwrap();
+    // read bytes rather than a string: a line that is not valid UTF-8 is just another line the
+    // engine does not understand, not a reason to give up
+    let mut bytes = Vec::new();
+    let bytes_read = stdin.lock().read_until(b'\n', &mut bytes).unwrap();
+    let mut buffer = String::from_utf8_lossy(&bytes).into_owned();
     if bytes_read == 0 {
         // end of input, the GUI is gone and there is nothing left to serve
         info!("ENGINE << end of input, exiting");
